@@ -37,7 +37,7 @@ theorem validate_absent_table (k : NKind) :
     isZeroD (.flt k (.fin 0 0)) = true ∧ isZeroD (.time zeroTimeNs true) = true ∧
     isZeroD (.slice []) = true ∧ isZeroD (.ptr none) = true ∧
     isZeroD (.int k 1) = false ∧ isZeroD (.bool true) = false ∧ isZeroD (.str "a") = false ∧
-    isZeroD (.flt k .nzero) = false := by
+    isZeroD (.flt k .nzero) = true := by
   refine ⟨rfl, rfl, rfl, rfl, by decide, rfl, rfl, rfl, rfl, by decide, rfl⟩
 
 /-! ## (b) the decision table: Default > Required > Optional -/
